@@ -42,7 +42,9 @@ Latitude (allowed sets with more than one element; each use is counted in
 * SELECT answered ``OK [READ-ONLY]`` selects read-only;
 * AUTHENTICATE PLAIN when ``AUTH=PLAIN`` is not advertised: OK or refused;
   LOGIN while ``LOGINDISABLED`` is advertised must be refused (RFC 2595 3.2);
-* IDLE terminated by something other than DONE: OK or refused.
+* IDLE terminated by something other than DONE: OK or refused;
+* ID, IDLE, MOVE, UID EXPUNGE in their right state while the capability (ID,
+  IDLE, MOVE, UIDPLUS) is not advertised: OK or refused.
 A command that had to be refused and instead kills the connection (no tagged
 NO/BAD) is a violation of this property; a death anywhere else is an aborted
 trace (owned by C06).
@@ -709,6 +711,8 @@ class Exp(NamedTuple):
 _OK = frozenset({'OK'})
 _REF = frozenset({'REFUSED'})
 _ANY = frozenset({'OK', 'REFUSED'})
+#: commands that exist only if the capability is advertised
+EXTENSION = {'ID': b'ID', 'IDLE': b'IDLE', 'MOVE': b'MOVE'}
 
 
 def names_of(dump: dict[str, Any], user: str | None) -> set[str]:
@@ -736,9 +740,15 @@ def expect(sym: Sym, st: St, caps: tuple[bytes, ...],
         if sym.cmd == 'SELECT' and st.phase == 'SELECTED':
             after = (st, St('AUTH', st.user))
         return Exp(_REF, None, None, after, None, 'invalid arguments')
+    ext = b'UIDPLUS' if sym.name == 'UID_EXPUNGE' \
+        else EXTENSION.get(sym.cmd)
+    unadvertised = ext is not None and ext not in caps
     if sym.klass == 'any':
         if sym.cmd == 'LOGOUT':
             return Exp(_OK, None, St('LOGOUT'), same, None, 'LOGOUT')
+        if unadvertised:
+            return Exp(_ANY, None, st, same, 'extension-not-advertised',
+                       '%s not advertised' % ext.decode())
         return Exp(_OK, None, st, same, None, 'any-state command')
     if sym.klass == 'nonauth':
         if authed:
@@ -790,6 +800,9 @@ def expect(sym: Sym, st: St, caps: tuple[bytes, ...],
                    'no mailbox selected')
     if sym.cmd == 'CLOSE':
         return Exp(_OK, None, St('AUTH', st.user), same, None, 'CLOSE')
+    if unadvertised:
+        return Exp(_ANY, None, st, same, 'extension-not-advertised',
+                   '%s not advertised' % ext.decode())
     if sym.kind == 'baddone':
         return Exp(_ANY, None, st, same, 'idle-not-done',
                    'IDLE ended by something other than DONE')
@@ -1058,6 +1071,7 @@ async def explore(ctx: Ctx, prefix: list[str], extend: bool,
     base = obs[-1]
     n = len(prefix) + 1
     runs = lost = 0
+    reason = ''
     for c in ALPHABET:
         seq = prefix + [c]
         ctx.count('exhaustive_len%d_sequences' % n)
@@ -1150,10 +1164,10 @@ class C05(Check):
         'handshake itself is a no-op on the in-memory transport',
         'exhaustive to depth 3 on dict without TLS only; depth 2 on the '
         'TLS / remote-peer / maildir configurations']
-    floors = {'steps_judged': 3000, 'states_revealed': 2500,
-              'refusals_checked_no_effect': 1500, 'probe_runs': 3000,
-              'state_symbol_pairs': 400, 'glass_comparisons': 2000,
-              'logouts_checked': 20}
+    floors = {'steps_judged': 15000, 'states_revealed': 14000,
+              'refusals_checked_no_effect': 8000, 'probe_runs': 15000,
+              'state_symbol_pairs': 900, 'glass_comparisons': 10000,
+              'logouts_checked': 100}
     time_cap = {'quick': 150.0, 'thorough': 1200.0}
 
     def cases(self, tier: str, seed: int) -> Iterable[dict[str, Any]]:
@@ -1164,9 +1178,12 @@ class C05(Check):
         floors['exhaustive_len1_sequences'] = n * len(exh2)
         floors['exhaustive_len2_sequences'] = n * n * len(exh2)
         floors['random_sequences'] = 1200 if quick else 8000
+        floors['state_symbol_pairs'] = \
+            (2 if quick else len(CONFIGS)) * N_CANONICAL * n * 9 // 10
         if not quick:
             floors['exhaustive_len3_sequences'] = len(CORE) ** 2 * n
             floors['steps_judged'] = 150000
+            floors['states_revealed'] = 140000
         self.floors = floors
         out: list[dict[str, Any]] = []
         # exhaustive: every first symbol with all its extensions
@@ -1184,7 +1201,7 @@ class C05(Check):
                     out.append({'kind': 'exh', 'config': 'dict',
                                 'prefix': [a, b]})
         rng = random.Random(seed * 9157 + 5)
-        want = 1500 if quick else 10000
+        want = 1400 if quick else 10000
         seen: set[tuple[str, ...]] = set()
         rnd: list[dict[str, Any]] = []
         while len(rnd) < want:
@@ -1196,17 +1213,10 @@ class C05(Check):
                 continue
             seen.add(key)
             rnd.append({'kind': 'random', 'config': cfg, 'symbols': seq})
-        # interleave so that every worker shard gets a similar mix
+        # short sequences first (a mechanism's first witness is then likely
+        # a short one); shards are strided, so every worker gets the same mix
         rng.shuffle(out)
-        merged: list[dict[str, Any]] = []
-        step = max(1, len(rnd) // max(1, len(out)))
-        ri = 0
-        for spec in out:
-            merged.append(spec)
-            merged.extend(rnd[ri:ri + step])
-            ri += step
-        merged.extend(rnd[ri:])
-        return merged
+        return out + rnd
 
     def setup_worker(self) -> None:
         shadow.install_glass()
